@@ -4,7 +4,10 @@ package main
 import (
 	"verifharness/fw"
 
+	_ "verifharness/checks/c18"
 	_ "verifharness/checks/c19"
+	_ "verifharness/checks/c22"
+	_ "verifharness/checks/c23"
 )
 
 func main() { fw.Main() }
